@@ -189,6 +189,12 @@ def check(ctx):
 def set_order(ctx):
     M = ctx.M
     n_sites = 0
+    tabled_seen = set()
+    pending = []
+    try:
+        newdefs_ = {n_ for ns_ in M.new_definitions().values() for n_ in ns_}
+    except Exception:
+        newdefs_ = set()
     for fn in M.all_funcs():
         if fn.parent is not None:
             continue
@@ -244,7 +250,19 @@ def set_order(ctx):
             inst = 'a set is %s in %s' % (use, fn.qn)
             if fn.qn in TABLED_SET_ITER:
                 ctx.holds('C18.set', inst + ' (tabled: %s)' % TABLED_SET_ITER[fn.qn], fn.site(n))
+                tabled_seen.add(fn.qn)
                 continue
+            pending.append((fn, n, inst, use))
+    moved = [q_ for q_ in TABLED_SET_ITER if q_ not in tabled_seen]
+    for fn, n, inst, use in pending:
+        host_ = fn.cls.name if fn.cls is not None else None
+        if moved and (fn.name in newdefs_ or host_ in newdefs_):
+            # the iteration the table discharges (by hand, for the function it names) is gone from that function, and a set is iterated in a function this tree
+            # introduces: whether it is the tabled iteration moved, feeding the same per-asset state, is not related here
+            ctx.undecided('C18.set', 'hash-ordered collections are sorted before their order can matter', fn.site(n),
+                          '%s (%s), a function this tree introduces, while the tabled iteration of %s is no longer there' % (inst, ast.unparse(n)[:60], ', '.join(moved)))
+            continue
+        if True:
             ctx.violation('C18.set', 'hash-ordered collections are sorted before their order can matter', fn.site(n),
                           '%s (%s): iteration order of a set of strings changes with the interpreter\'s hash seed' % (inst, ast.unparse(n)[:80]),
                           key='C18.set|%s|%s' % (fn.qn, use.split(' ')[0]))
@@ -515,6 +533,9 @@ def randomness(ctx):
                                 break
             elif isinstance(p, (ast.JoinedStr, ast.FormattedValue)):
                 ok = True
+            elif isinstance(p, ast.Compare) and len(p.ops) == 1 and isinstance(p.ops[0], (ast.Is, ast.IsNot)) and \
+                    any(isinstance(c_, ast.Constant) and c_.value is None for c_ in [p.left] + p.comparators):
+                ok = True       # "was an id given?": a generated id is never None, so the answer does not depend on which id was generated
             elif isinstance(p, ast.keyword):
                 q, p = p, pm.get(p)
                 continue
@@ -538,7 +559,7 @@ def randomness(ctx):
                     'order_id is used in a %s: results would depend on a random value' % why, key='C18.random|order_id|%s|%s' % (fn.qn, why.split(' ')[0]))
     # order_id parameter of Transaction is only stored
     ws = writers_of_attr(M, 'order_id')
-    ctx.require(all(w.fn.name == '__init__' for w in ws), 'C18.random', 'order_id fields are set only by constructors', ws[0].where if ws else None, key='C18.random|order_id-writers')
+    ctx.require(all(w.fn.name in ('__init__', '__post_init__') for w in ws), 'C18.random', 'order_id fields are set only by constructors', ws[0].where if ws else None, key='C18.random|order_id-writers')
 
 
 # ------------------------------------------------------------------------------------------------ shared state
